@@ -15,7 +15,7 @@ CHECKS = [
   "note": _NOTE + " npy headers are trusted to describe the stored arrays."},
  {"id": "C12", "engine": "gridlint", "design_ref": "DESIGN.md 4/C12",
   "technique": "static proof by rule: sortedness of constant-folded tables + recognised lower-bound (bisect_left) idiom + guard/return shape",
-  "text": "Decides the whole statement for all integer requests at once: tables strictly ascending and mutually inverse, resolver bisects list(keys()) of the dispatched table behind a range guard and returns the matching pair, every pair has its data file, the sequence converter is element-wise consistent, constructors store resolved values. An unrecognised lookup idiom yields exit 2 (undecided), never a pass.",
+  "text": "Decides the whole statement for all integer requests at once: tables strictly ascending and mutually inverse, resolver bisects list(keys()) of the dispatched table behind a range guard and returns the matching pair, every pair has its data file, the sequence converter is element-wise consistent (positions selected on the request sequence, never on the array being rewritten), a request of exactly zero is not rejected by any validation guard of the resolver (three-valued guard evaluation), constructors store resolved values. An unrecognised lookup idiom yields exit 2 (undecided), never a pass.",
   "note": _NOTE + " Contract of bisect.bisect_left and dict insertion order."},
  {"id": "C17", "engine": "gridlint", "design_ref": "DESIGN.md 4/C17",
   "technique": "static table<->loader agreement (keys subscripted by the loader vs shipped JSON entries)",
@@ -42,15 +42,15 @@ CHECKS += [
   "note": _NOTE + " Sign assumptions: R,k,m,a,b,rmin,rmax>0, rmax>rmin, x in (-1,1)."},
  {"id": "C05", "engine": "gridlint", "design_ref": "DESIGN.md 4/C05",
   "technique": "static table<->branch agreement with a literal guard interpreter over npz headers/small tables + sibling value graphs",
-  "text": "Decides: every (preset, element) pair of the 17 shipped archives fits the branch of from_preset it is routed to (1374 pairs, exhaustive); the stored shell and get_shell_grid are the same computation incl. rotation seed; the centre is added once on read; rotations are seeded from rotate; preset sizes are passed as sizes. One known finding (malformed SG-3 silicon table). Does NOT decide numeric points/weights or factorisation of integrals.",
+  "text": "Decides: every (preset, element) pair of the 17 shipped archives fits the branch of from_preset it is routed to (1374 pairs, exhaustive); the stored shell and get_shell_grid are the same computation incl. rotation seed; the centre is added once on read; rotations are seeded from rotate; preset sizes are passed as sizes; the shell index table accumulates the appended shell sizes; binary searches in the sector assignment only run over data whose order is established in the same function (the radial points of the caller are not ordered). One known finding (malformed SG-3 silicon table). Does NOT decide numeric points/weights or factorisation of integrals.",
   "note": _NOTE + " Preset tables are read as configuration tables (compare/len/sum only)."},
  {"id": "C06", "engine": "gridlint", "design_ref": "DESIGN.md 4/C06",
-  "technique": "static sibling-agreement by value numbering of the duplicated Becke pipelines + guard rules",
-  "text": "Decides the clause 'all evaluation routes return identical numbers' structurally (equal value graphs of the whole-grid and per-atom pipelines, same segment pairing) and two guards (chunk table shifted by the chunk start and clipped at zero; heteronuclear parameter clipped on both sides below 1/2). Does NOT decide bounds, partition of unity, invariances, Hirshfeld (numerical).",
+  "technique": "static sibling-agreement by value numbering of the duplicated Becke pipelines + guard rules + index-space inference (a dimension-type system for axis 0)",
+  "text": "Decides the clause 'all evaluation routes return identical numbers' structurally (equal value graphs of the whole-grid and per-atom pipelines, same segment pairing) and two guards (chunk table shifted by the chunk start and clipped at zero; heteronuclear parameter clipped on both sides below 1/2; a uniform stride over np.array_split chunks is a known-wrong offset), the Hirshfeld share (every pro-atom enters the pro-molecule, own segment takes own pro-atom, one division after the loop) and index-space consistency in becke.py/hirshfeld.py (no per-atom array addressed by the counter of an enumerated selection or by a doubly applied permutation). Does NOT decide bounds, partition of unity, invariances, Hirshfeld (numerical).",
   "note": _NOTE},
  {"id": "C07", "engine": "gridlint", "design_ref": "DESIGN.md 4/C07",
-  "technique": "static def-use fan-out analysis + provenance tags (atomic vs atomic x aim) on store-dependent branches",
-  "text": "Decides: the convenience constructors forward every argument to the atomic constructor / cls(...) without crossing the per-atom list/dict dispatch; methods branching on the store flag return weights of the same provenance (one known finding: __getitem__); the constructor concatenates by the index table and applies aim weights once. Does NOT decide numerical equality or the 1% accuracy clause.",
+  "technique": "static def-use fan-out analysis + provenance tags (atomic vs atomic x aim) on store-dependent branches + value graphs of the constructor loop + index-space inference",
+  "text": "Decides: the convenience constructors forward every argument to the atomic constructor / cls(...) without crossing the per-atom list/dict dispatch; methods branching on the store flag return weights of the same provenance (one known finding: __getitem__); the constructor concatenates by the index table and applies aim weights once; no per-atom value is carried from one atom to the next; per-atom sequences in molgrid.py are addressed in the index space of the atoms. Does NOT decide numerical equality or the 1% accuracy clause.",
   "note": _NOTE},
  {"id": "C10", "engine": "gridlint", "design_ref": "DESIGN.md 4/C10",
   "technique": "static class-state analysis: definite field assignment over the MRO, memo-invalidation typestate, property/raw-field rule",
@@ -62,15 +62,15 @@ CHECKS += [
   "note": _NOTE},
  {"id": "C13", "engine": "gridlint", "design_ref": "DESIGN.md 4/C13",
   "technique": "static guard-dominance analysis of third-axis constructs + symbolic array-shape abstract interpretation (per dimensionality) of the weight schemes + symbolic stride tables of the index maps",
-  "text": "Decides the clause 'every documented weighting scheme (and the index maps) construct in both dimensions': every construct that only exists in 3-D is dominated by a test implying ndim == 3; and the tensor-layout clause for weights: in 2-D and 3-D every scheme returns the C-order flattening of an array with axes (shape[0], shape[1][, shape[2]]) (or a uniform vector), Tensor1DGrids krons its weights in the meshgrid('ij') order of its points; the forward index map multiplies by the row-major strides (n1*n2, n2, 1)/(n1, 1), evaluated symbolically per dimensionality, and the inverse map divides by the same table. Does NOT decide weights summing to the volume, nearest point, molecule margin, cube round trip, interpolation (numerical).",
+  "text": "Decides the clause 'every documented weighting scheme (and the index maps) construct in both dimensions': every construct that only exists in 3-D is dominated by a test implying ndim == 3; and the tensor-layout clause for weights: in 2-D and 3-D every scheme returns the C-order flattening of an array with axes (shape[0], shape[1][, shape[2]]) (or a uniform vector), Tensor1DGrids krons its weights in the meshgrid('ij') order of its points; the forward index map multiplies by the row-major strides (n1*n2, n2, 1)/(n1, 1), evaluated symbolically per dimensionality, and the inverse map divides by the same table (the divisors of the floor divisions / divmod executed for that dimensionality); both exits of the cube-file reader construct the grid from the same values (a unit conversion applied on one exit only is reported). Does NOT decide weights summing to the volume, nearest point, molecule margin, cube round trip, interpolation (numerical).",
   "note": _NOTE},
  {"id": "C14", "engine": "gridlint", "design_ref": "DESIGN.md 4/C14",
-  "technique": "static name resolution of third-party references + branch-shape analysis of the order generator + dispatch agreement + array-shape abstract interpretation of the moment routine for dimensions 1-3",
-  "text": "Decides: the Cartesian and radial moment code is free of broadcast/unpack/index failures for 1-, 2- and 3-dimensional grids and hard-wires no column count; every NumPy/SciPy/SymPy attribute reference of the package resolves in the installed versions (~890 references); every (type, dim) branch of the order generator appends rows of the right width and returns the row table (dims 1, 2, 3); Grid.moments and the generator agree on the moment types and each type computes its integral once. Does NOT decide that entries equal the quadrature of their integrands.",
+  "technique": "static name resolution of third-party references + symbolic row streams of the order generator compared as terms with the documented Horton order + dispatch agreement + array-shape abstract interpretation of the moment routine for dimensions 1-3",
+  "text": "Decides: the Cartesian and radial moment code is free of broadcast/unpack/index failures for 1-, 2- and 3-dimensional grids and hard-wires no column count; every NumPy/SciPy/SymPy attribute reference of the package resolves in the installed versions (~890 references); every (type, dim) branch of the order generator appends rows of the right width and returns the row table (dims 1, 2, 3); the rows of every branch are generated in the documented Horton order for every value of `order` (loop/comprehension structure normalised to a stream term, no enumeration); Grid.moments and the generator agree on the moment types and each type computes its integral once. Does NOT decide that entries equal the quadrature of their integrands.",
   "note": _NOTE + " The checker imports numpy/scipy/sympy (never grid) to resolve names."},
  {"id": "C18", "engine": "gridlint", "design_ref": "DESIGN.md 4/C18",
   "technique": "static sibling-agreement by value numbering under the points<->weights substitution",
-  "text": "Decides lock-step enumeration: points and weights properties, the partial combinations of the vectorised route, the chunk streams of the point-by-point route and the reported size all describe the same product in the same order. Does NOT decide numerical equality of the three routes.",
+  "text": "Decides lock-step enumeration: points and weights properties, the partial combinations of the vectorised route, the chunk streams of the point-by-point route and the reported size all describe the same product in the same order; the accumulation loops over paired points and weights take every pair (no break / conditional skip other than an exactly-zero weight). Does NOT decide numerical equality of the three routes.",
   "note": _NOTE + " itertools.product order is the documented lexicographic order."},
 ]
 
